@@ -7,14 +7,6 @@ import (
 	"github.com/xjslang/xjs/sourcemap"
 )
 
-func cleanEmptyLines(code string) string {
-	lines := strings.Split(strings.TrimSpace(code), "\n")
-	for i, line := range lines {
-		lines[i] = strings.TrimRight(line, " ")
-	}
-	return strings.Join(lines, "\n")
-}
-
 type CompileResult struct {
 	Code      string
 	SourceMap *sourcemap.SourceMap
@@ -97,11 +89,9 @@ func (c *Compiler) Compile(program *ast.Program) CompileResult {
 	}
 	program.WriteTo(&w)
 
-	// TODO: maybe it won't necessary to "clean" the result
+	// the writer produces the final text: nothing in front of the first token, no
+	// blanks at line ends, no line break at the end
 	code := w.String()
-	if c.prettyPrint {
-		code = cleanEmptyLines(code)
-	}
 
 	var sm *sourcemap.SourceMap
 	if c.generateSourceMap {
